@@ -64,14 +64,17 @@ def dset(xs):
 
 
 def write_cfg(ctx, name, bugs, known, invariants, persist, keephist, maxops, emul=False, paths="MC_Paths2", maps="MC_Maps",
-              gmaps="MC_GMaps", alias=False, n=MODEL_N):
+              gmaps="MC_GMaps", alias=False, n=MODEL_N, refuse_before_init=None):
     """One MC configuration of MC_Vfs (written to the work directory)."""
     mod = "MC_Vfs"
     cfg = ctx.path(name + ".cfg")
     lines = ["SPECIFICATION Spec", "CONSTANTS", "  N = %d" % n, "  B = 4", "  Paths <- %s" % paths, "  BadPath <- MC_BadPath",
              "  Backends <- MC_Backends", "  Maps <- %s" % maps, "  GMaps <- %s" % gmaps, "  RootUid <- MC_RootUid", "  TestUid <- MC_TestUid",
              "  MaxOps = %d" % maxops, "  Bugs <- %s" % dset(bugs), "  Known <- %s" % dset(known), "  WithPersist = %s" % ("TRUE" if persist else "FALSE"),
-             "  KeepHist = %s" % ("TRUE" if keephist else "FALSE")]
+             "  KeepHist = %s" % ("TRUE" if keephist else "FALSE"),
+             # before INIT a refusing backend makes INIT fail: with save/restore that meets the restore-initialized finding
+             # from the other side (an un-negotiated VFS is restored as negotiated), kept out of the C19 histories
+             "  RefuseBeforeInit = %s" % ("TRUE" if (refuse_before_init if refuse_before_init is not None else not persist) else "FALSE")]
     if emul:
         lines += ["  Wrap = 256", "  LoopAlloc = FALSE", "  NextSuper0 = 0", "  NextIno0 = 258"]
     else:
@@ -200,11 +203,12 @@ def last_obs(base, i):
     return []
 
 
-def tlc_walks(ctx, name, n, depth, bugs, persist, maps="MC_Maps", gmaps="MC_GMaps", paths="MC_Paths"):
+def tlc_walks(ctx, name, n, depth, bugs, persist, maps="MC_Maps", gmaps="MC_GMaps", paths="MC_Paths", refuse_before_init=None):
     """n behaviours of I sampled by TLC (-simulate), exported through the Export invariant."""
     import time
     t0 = time.time()
-    mod, cfg = write_cfg(ctx, name, bugs, bugs, ["Export"], persist, True, depth, emul=True, paths=paths, maps=maps, gmaps=gmaps)
+    mod, cfg = write_cfg(ctx, name, bugs, bugs, ["Export"], persist, True, depth, emul=True, paths=paths, maps=maps, gmaps=gmaps,
+                         refuse_before_init=refuse_before_init)
     # the Export invariant prints every candidate successor of the last step: far more behaviours than walks
     r = C.tlc_mc(ctx, mod, cfg=cfg, workers=4, simulate="num=%d" % max(3, n // 30), depth=depth + 2, coverage=False, must_cover=False, timeout=900)
     seen = {}
@@ -395,8 +399,10 @@ def detect(ctx, bd, abi, pid, persist):
 def main_mc(ctx, pid, bugs, persist):
     quick = ctx.quick
     name = "main_%s" % pid
+    # quick: refusing backends only once the VFS is negotiated (the exhaustive run with refusals before INIT, which make
+    # INIT fail, is three times larger: thorough tier; the sampled behaviours replayed on the code include them in both tiers)
     mod, cfg = write_cfg(ctx, name, bugs, bugs, INV[pid], persist, False, 4 if quick else 6, paths="MC_Paths2" if quick else "MC_Paths",
-                         maps="MC_Maps", gmaps="MC_GMaps")
+                         maps="MC_Maps", gmaps="MC_GMaps", refuse_before_init=False if (quick or persist) else True)
     r = C.tlc_mc(ctx, mod, cfg=cfg, workers=8, timeout=1500, ignore_uncovered=() if persist else ("DoSaveRestore",))
     C.log("vfs %s: I => A checked on %d distinct states (%d generated) in %.1fs" % (name, r["distinct"], r["generated"], r["wall_s"]))
     if r["violated"]:
@@ -413,7 +419,8 @@ def main_mc(ctx, pid, bugs, persist):
 def coverage(rows):
     cov = {"mounts_ok": 0, "mounts_refused": 0, "overmounts": 0, "root_mounts": 0, "nested_mounts": 0, "umounts": 0, "wraparounds": 0,
            "table_full": 0, "requests": 0, "vacant_slot_requests": 0, "pseudo_requests": 0, "cross_mount_two_inode": 0,
-           "mountpoint_lookups": 0, "with_own_mapping": 0, "with_global_mapping": 0, "saverestore": 0, "saverestore_v1": 0, "saved_after_wrap_with_mapping_above_next_super": 0, "remounts_in_place": 0, "with_own_empty_range_mapping": 0, "with_own_empty_range_mapping_under_global": 0,
+           "mountpoint_lookups": 0, "with_own_mapping": 0, "with_global_mapping": 0, "saverestore": 0, "saverestore_v1": 0, "saved_after_wrap_with_mapping_above_next_super": 0, "remounts_in_place": 0, "mounts_refused_backend_init": 0, "overmounts_refused_backend_init": 0, "inits_refused_by_backend": 0,
+           "with_own_empty_range_mapping": 0, "with_own_empty_range_mapping_under_global": 0,
            "requests_on_empty_range_mount_under_global": 0,
            "requests_after_remount": 0, "umounts_refused": 0, "umounts_refused_with_remove_pseudo_root": 0, "umounts_with_remove_pseudo_root": 0, "ops": {}}
     mounted = {}
@@ -468,8 +475,14 @@ def coverage(rows):
                     cov["with_global_mapping"] += 1
             else:
                 cov["mounts_refused"] += 1
+                if r.get("init_ok") is False and r.get("abs") and r.get("backend_ok"):
+                    cov["mounts_refused_backend_init"] += 1
+                    if "/" + "/".join(c for c in r["comps"] if c not in ("", ".")) in mounted:
+                        cov["overmounts_refused_backend_init"] += 1
                 if r.get("abs") and r.get("backend_ok") and "maximum mountpoints" in r.get("err", ""):
                     cov["table_full"] += 1
+        elif e == "Init" and r.get("backend_refuses") and r.get("status") != 0:
+            cov["inits_refused_by_backend"] += 1
         elif e == "Remount":
             if r["ret"] == "ok":
                 cov["remounts_in_place"] += 1
@@ -561,9 +574,17 @@ def replay(ctx, pid):
     ctx.extra["rule"] = "replay of " + ctx.replay
 
 
+def export_abi(ctx):
+    """the ABI table exported from the wire spec (one retry: the JVM start can fail on an overloaded machine)"""
+    try:
+        return wire.export_abi(ctx)
+    except C.ToolError:
+        return wire.export_abi(ctx)
+
+
 def common_run(ctx, pid, persist):
     bd = bindir(ctx)
-    abi = wire.export_abi(ctx)
+    abi = export_abi(ctx)
     try:
         present, lit_rows = detect(ctx, bd, abi, pid, persist)
         r, cx = main_mc(ctx, pid, present, persist)
@@ -581,6 +602,72 @@ def common_run(ctx, pid, persist):
         pass
 
 
+NOMAP = {"i": 0, "e": 0, "r": 0, "some": False}
+
+
+def _req(rop, path, seed, **kw):
+    return dict({"op": "req", "rop": rop, "seed": seed, "t": {"t": "mpath", "path": path}, "fail": False}, **kw)
+
+
+def directed_c07(seed):
+    """Targeted histories behind the coverage gates of C07 (independent of the seed): nested / root / over-mount, full
+    table, refused mounts (relative path, backend refusing init() after INIT, also as an over-mount), re-attach in
+    place, vacant index, cross-mount link/rename, and - with set_remove_pseudo_root() - refused umounts of an
+    intermediate pseudo directory, of "/" and of unknown paths."""
+    d1 = {"id": "directed-c07-table", "src": "directed", "kind": "plain", "seed": seed * 11 + 1, "g": {"i": 0, "e": 0, "r": 0}, "scale": 1,
+          "emul": MODEL_N, "autoprobe": 2, "paths": ["/x", "/x/y", "/q"], "opts": {"no_open": False, "no_opendir": False},
+          "steps": [{"op": "mount", "path": "/x", "b": "b1", "m": NOMAP}, {"op": "mount", "path": "/x/y", "b": "b2", "m": NOMAP},
+                    {"op": "mount", "path": "/", "b": "b1", "m": NOMAP},
+                    {"op": "mount", "path": "/z", "b": "b2", "m": NOMAP},                       # table full
+                    {"op": "mount", "path": "relative/path", "b": "b2", "m": NOMAP},
+                    _req("link", "/x", 1, t2={"t": "mpath", "path": "/x/y"}), _req("rename", "/x/y", 2, t2={"t": "mpath", "path": "/"}),
+                    {"op": "remount", "path": "/x", "b": "b2"}, _req("getattr", "/x", 3), _req("lookup", "/x", 4), _req("readdirplus", "/x", 5),
+                    {"op": "umount", "path": "/x/y"},
+                    {"op": "req", "rop": "getattr", "seed": 6, "t": {"t": "ino", "idx": 2, "low": "5"}},      # vacant index
+                    {"op": "mount", "path": "/x", "b": "b2", "m": NOMAP},                      # over-mount
+                    {"op": "umount", "path": "/"},
+                    {"op": "init", "empty": False, "zmo": False, "zmod": False},
+                    {"op": "mount", "path": "/q", "b": "b1", "m": NOMAP, "init_fail": True},   # refused: nothing changes
+                    {"op": "mount", "path": "/x", "b": "b1", "m": NOMAP, "init_fail": True},   # refused over-mount: /x stays
+                    _req("getattr", "/x", 7), _req("lookup", "/x", 8),
+                    {"op": "umount", "path": "/x"}, {"op": "umount", "path": "/q"}]}
+    d2 = {"id": "directed-c07-rmroot", "src": "directed", "kind": "plain", "seed": seed * 11 + 2, "g": {"i": 0, "e": 0, "r": 0}, "scale": 1,
+          "autoprobe": 1, "paths": ["/x/y", "/w"], "opts": {"no_open": False, "no_opendir": False, "remove_pseudo_root": True},
+          "steps": [{"op": "mount", "path": "/x/y", "b": "b1", "m": NOMAP}, {"op": "mount", "path": "/w", "b": "b2", "m": NOMAP},
+                    {"op": "umount", "path": "/x"}, {"op": "umount", "path": "/"}, {"op": "umount", "path": "/q"}, {"op": "umount", "path": "/x/never"},
+                    {"op": "umount", "path": "/x/y"}, {"op": "mount", "path": "/x/y", "b": "b2", "m": NOMAP},
+                    {"op": "remount", "path": "/w", "b": "b1"}, _req("getattr", "/w", 9),
+                    {"op": "umount", "path": "/w"}, {"op": "umount", "path": "/x/y"}]}
+    # a backend that refuses init() mounted BEFORE the negotiation: the mount succeeds, INIT fails as long as it is mounted
+    d3 = {"id": "directed-c07-init-refused", "src": "directed", "kind": "plain", "seed": seed * 11 + 3, "g": {"i": 0, "e": 0, "r": 0}, "scale": 1,
+          "autoprobe": 1, "paths": ["/p", "/r"], "opts": {"no_open": False, "no_opendir": False},
+          "steps": [{"op": "mount", "path": "/p", "b": "b1", "m": NOMAP, "init_fail": True}, {"op": "mount", "path": "/r", "b": "b2", "m": NOMAP},
+                    {"op": "init", "empty": False, "zmo": True, "zmod": False}, _req("getattr", "/p", 10), _req("open", "/r", 11),
+                    {"op": "umount", "path": "/p"}, {"op": "init", "empty": False, "zmo": False, "zmod": True}, _req("open", "/r", 12),
+                    {"op": "mount", "path": "/p", "b": "b1", "m": NOMAP, "init_fail": True}, {"op": "init", "empty": False, "zmo": True, "zmod": True}]}
+    return [d1, d2, d3]
+
+
+def directed_c14(seed):
+    """Targeted history behind the coverage gates of C14: a global mapping, mounts with their own mapping, with an own
+    EMPTY-RANGE mapping, with none, on "/", over-mounted; every id-carrying operation on each of them."""
+    g = {"i": 0, "e": 1000, "r": 65536}
+    own = {"i": 0, "e": 100000, "r": 65536, "some": True}
+    empty = {"i": 5, "e": 7, "r": 0, "some": True}
+    steps = [{"op": "mount", "path": "/a", "b": "b1", "m": own, "ruid": 3, "rgid": 70000},
+             {"op": "mount", "path": "/b", "b": "b2", "m": empty, "ruid": 0, "rgid": 1000},
+             {"op": "mount", "path": "/", "b": "b1", "m": NOMAP, "ruid": 65535, "rgid": 65536}]
+    n = 0
+    for path in ("/a", "/b", "/"):
+        for rop in ("lookup", "getattr", "setattr", "create", "mkdir", "mknod", "symlink", "link", "readdirplus"):
+            n += 1
+            steps.append(_req(rop, path, seed * 100 + n, **({"t2": {"t": "mpath", "path": path}} if rop == "link" else {})))
+    steps += [{"op": "mount", "path": "/a", "b": "b2", "m": NOMAP, "ruid": 1, "rgid": 2}, _req("getattr", "/a", 91), _req("setattr", "/a", 92),
+              {"op": "umount", "path": "/"}, {"op": "mount", "path": "/c", "b": "b1", "m": empty}, _req("create", "/c", 93)]
+    return [{"id": "directed-c14-maps", "src": "directed", "kind": "plain", "seed": seed * 13 + 1, "g": g, "scale": 1, "emul": MODEL_N,
+             "autoprobe": 2, "paths": ["/a", "/b", "/c"], "opts": {"no_open": False, "no_opendir": False}, "steps": steps}]
+
+
 def plain_sources(ctx, bd, abi, present, tag, idpred=True):
     quick = ctx.quick
     walks = tlc_walks(ctx, "walk_" + tag, 120 if quick else 600, 6 if quick else 8, present, False)
@@ -590,6 +677,7 @@ def plain_sources(ctx, bd, abi, present, tag, idpred=True):
     # set_remove_pseudo_root(): leaf mount points, refused umounts of intermediate directories / "/" / unknown paths,
     # walks to every mount path after every step, every mount unmounted by path at the end
     rnd += gen_random(ctx, bd, abi, 2 if quick else 12, 25 if quick else 80, "rmroot", tag + "r")
+    rnd += directed_c07(ctx.seed) + directed_c14(ctx.seed)
     return scs, rnd
 
 
@@ -606,7 +694,8 @@ def run_c07(ctx):
         cov = coverage(rows)
         gate(ctx, cov, ["mounts_ok", "mounts_refused", "overmounts", "root_mounts", "nested_mounts", "umounts", "wraparounds", "table_full",
                         "vacant_slot_requests", "pseudo_requests", "cross_mount_two_inode", "mountpoint_lookups", "remounts_in_place",
-                        "requests_after_remount", "umounts_refused_with_remove_pseudo_root", "umounts_with_remove_pseudo_root"])
+                        "requests_after_remount", "umounts_refused_with_remove_pseudo_root", "umounts_with_remove_pseudo_root",
+                        "mounts_refused_backend_init", "overmounts_refused_backend_init", "inits_refused_by_backend"])
 
         def mut(bad):
             n = 0
@@ -692,8 +781,8 @@ def run_c19(ctx):
         quick = ctx.quick
         rnd_py = random.Random(ctx.seed)
         # histories of the model: with per-mount/global mappings (format 2) and without any (format 1 too)
-        walks = tlc_walks(ctx, "walk_c19", 10 if quick else 60, 5 if quick else 7, present, False)
-        walks1 = tlc_walks(ctx, "walk_c19v1", 4 if quick else 30, 5 if quick else 7, present, False, maps="MC_NoMaps", gmaps="MC_NoGMaps")
+        walks = tlc_walks(ctx, "walk_c19", 10 if quick else 60, 5 if quick else 7, present, False, refuse_before_init=False)
+        walks1 = tlc_walks(ctx, "walk_c19v1", 4 if quick else 30, 5 if quick else 7, present, False, maps="MC_NoMaps", gmaps="MC_NoGMaps", refuse_before_init=False)
         scs = []
         pair = 1
         for i, w in enumerate(walks):
@@ -736,12 +825,34 @@ def run_c19(ctx):
                           {"op": "mount", "path": "/x", "b": "b2", "m": {"i": 0, "e": 0, "r": 0}},
                           {"op": "umount", "path": "/y"},
                           {"op": "mount", "path": "/y", "b": "b1", "m": m2, "ruid": 70999, "rgid": 70000}]}
-        scs += persist_variants(wrap, pair, cuts=[3, 5, 7])
+        wrap["steps"] += [{"op": "remount", "path": "/z", "b": "b2"}, _req("getattr", "/z", 5), {"op": "umount", "path": "/z"}]
+        scs += persist_variants(wrap, pair, cuts=[3, 5, 7, 8])
+        pair += 1
+        # directed: a state a version-1 writer could have produced (no per-mount mapping anywhere), saved in format 1
+        v1 = {"id": "v1-saved", "src": "directed", "kind": "plain", "seed": ctx.seed * 7 + 2, "g": {"i": 0, "e": 0, "r": 0}, "scale": 1,
+              "autoprobe": 2, "paths": ["/p", "/p/q", "/r"], "opts": {"no_open": False, "no_opendir": False},
+              "steps": [{"op": "mount", "path": "/p/q", "b": "b1", "m": NOMAP}, {"op": "mount", "path": "/r", "b": "b2", "m": NOMAP},
+                        {"op": "init", "empty": False, "zmo": True, "zmod": False}, {"op": "umount", "path": "/r"},
+                        {"op": "mount", "path": "/p", "b": "b2", "m": NOMAP}, {"op": "remount", "path": "/p/q", "b": "b1"},
+                        {"op": "mount", "path": "/r", "b": "b1", "m": NOMAP, "init_fail": True}, {"op": "mount", "path": "/r", "b": "b1", "m": NOMAP}]}
+        scs += persist_variants(v1, pair, cuts=[2, 4, 6, 8], ver=1)
         pair += 1
         # seeded histories, a few cuts each
         rnd = gen_random(ctx, bd, abi, 1 if quick else 4, 100 if quick else 300, "churn", "c19")
         rnd1 = gen_random(ctx, bd, abi, 1 if quick else 2, 60 if quick else 200, "nomap", "c19n")
         for s in rnd + rnd1:
+            # a backend refusing init() is mounted only once the VFS is negotiated (see RefuseBeforeInit in write_cfg)
+            done_init = False
+            for x in s["steps"]:
+                if x.get("op") == "init":
+                    # ... with a non-empty capability set (an empty one is what the restore-initialized finding is about:
+                    # the restored instance would accept the mount the unsaved one refuses)
+                    if not done_init and x.get("empty"):
+                        done_init = None
+                    elif done_init is False:
+                        done_init = True
+                elif x.get("op") == "mount" and x.get("init_fail") and done_init is not True:
+                    x.pop("init_fail")
             nm = sum(1 for x in s["steps"] if x.get("op") != "req")
             cuts = sorted(set(rnd_py.sample(range(1, nm + 1), min(2 if quick else 6, nm))))
             scs += persist_variants(s, pair, cuts=cuts, ver=1 if s.get("nomap") else 2)
